@@ -1125,10 +1125,13 @@ class Interp:
         if nm in ('any', 'all'):
             vals = [self.truth(v, e, fr) for v in args[0]]
             return any(vals) if nm == 'any' else all(vals)
+        def seq(v):
+            # an object whose class defines __iter__ over a stored sequence iterates that sequence
+            return list(v.attrs['__iter__']) if isinstance(v, Obj) and isinstance(v.attrs.get('__iter__'), (list, tuple)) else v
         if nm == 'enumerate':
-            return list(enumerate(args[0]))
+            return list(enumerate(seq(args[0]), *args[1:]))
         if nm == 'zip':
-            return list(zip(*args))
+            return list(zip(*[seq(a_) for a_ in args]))
         if nm == 'sum':
             out = 0
             for v in args[0]:
